@@ -29,6 +29,7 @@ def check(model, tier):
     )
     commute.r03_1_apply_protocol(ctx)
     commute.r03_2_backtrack_contract(ctx)
+    commute.r03_5_partial_join_engine(ctx)
     structure.r14_9_engine_plumbing(ctx, rule="R03.3")
     commute.r04_1_matrix(ctx)
     commute.r04_2_failure_hands_back(ctx)
